@@ -35,8 +35,8 @@ ASSUMPTIONS = [
     "whether CZ / parameterised gates belong to the 'unitary count' is not demanded: the definition counts SigmaX, SigmaY, SigmaZ, Phase, "
     "PhaseDagger, Hadamard, CNOT after unwrapping, identities dropped (metrics.py docstring and label list)",
     "log_steps bookkeeping (log, _inc) is not part of the property",
-    "user labels (op.add_labels) do not collide with class names or register-type descriptions (the counts are label-index based); the theorems "
-    "assume no user labels at all (PlainOp) — circuits with non-colliding user labels are covered by the per-input evaluation of the same equalities",
+    "user labels (op.add_labels) do not collide with class names or register-type descriptions (the counts are label-index based); this is "
+    "exactly the hypothesis PlainOp of the theorems (labels outside Metrics.reservedNames)",
 ]
 
 COUNTED = ["SigmaX", "SigmaY", "SigmaZ", "Phase", "PhaseDagger", "Hadamard", "CNOT"]
@@ -388,11 +388,18 @@ def is_schedule(L, wires, nodes):
     return all(all(r in wires for r in regs) for _, _, regs in L)
 
 
+RESERVED = {"Input", "Output", "Hadamard", "SigmaX", "SigmaY", "SigmaZ", "Phase", "PhaseDagger", "Identity", "RX", "RY", "RZ",
+            "ParameterizedOneQubitRotation", "OneQubitGateWrapper", "CNOT", "CZ", "ParameterizedControlledRotationQubit",
+            "ClassicalCNOT", "ClassicalCZ", "MeasurementCNOTandReset", "MeasurementZ", "Emitter", "Photonic", "Emitter-Emitter",
+            "Emitter-Photonic", "Photonic-Emitter", "Photonic-Photonic"}
+
+
 def plain_token(tok):
-    """hypothesis `AllPlain` of the theorems: no user labels, wrappers wrap base classes"""
+    """hypothesis `AllPlain` of the theorems: no label collides with a class name or a register-type description
+    (`Metrics.reservedNames`), wrappers wrap base classes"""
     name, q, c, lab, inner = tok.split(":")
     labs = [] if lab == "*" else lab.split(".")
-    return all(x in ("one-qubit", "two-qubit") for x in labs) and "OneQubitGateWrapper" not in inner.split(".")
+    return all(x not in RESERVED for x in labs) and "OneQubitGateWrapper" not in inner.split(".")
 
 
 def check_theorem_on_history(res, drv, circ, inp, rep, model_m):
